@@ -194,6 +194,7 @@ SIMPLE = {
     "derefassign": lambda: assign(deref(V("p")), "=", CH("'a'")),
     "idxassign": lambda: assign(index(V("p"), V("n")), "=", call("ft_f", [V("len")])),
     "binassign": lambda: assign(V("n"), "=", binop(V("len"), "*", C("2"))),
+    "negassign": lambda: assign(V("n"), "=", unary("-", V("len"))),
 }
 
 CONDS = {
@@ -208,6 +209,7 @@ SIGS = {
     "svoid": ("static ", "void", 0, "ft_fill", "void"),
     "charp": ("", "char", 1, "ft_dup", "ptr"),
     "ulong": ("", "unsigned long", 0, "ft_size", "int"),
+    "noarg": ("", "int", 0, "ft_zero", "int"),
 }
 
 PARAMS_STD = [("int", 0, "n", ""), ("char", 1, "p", ""), ("int", 0, "len", "")]
@@ -345,7 +347,7 @@ def enabled(st, b):
         if top.nfuncs < b.max_funcs:
             for sid, (prefix, typ, stars, name, rk) in SIGS.items():
                 name = f"{name}{top.nfuncs}" if top.nfuncs else name
-                lines = [Line(sig_line(prefix, typ, stars, name, PARAMS_STD), "funcsig"),
+                lines = [Line(sig_line(prefix, typ, stars, name, PARAMS_STD if sid != "noarg" else []), "funcsig"),
                          Line([P("lbrace", "{")], "lbrace")]
                 nfn = Fn(rk, "decls", 0, 0, 0, (), False, 0, ())
                 out.append((Block("fsig:" + sid, "funcsig", lines),
